@@ -159,7 +159,7 @@ def language(ck, tier, seed):
                     ck.mismatch(sig, {"src": c["src"], "vars": p["vars"], "run": name, "what": m}, replay={"kind": "lang", "prog": p})
                 break
         # compiled blocks (the CLI's level and the others), parser tree
-        if "block-without-return" not in p["tags"]:
+        if "block-without-return" not in p["tags"] and '"s": "pset"' not in json.dumps(p["body"]):      # (element assignment is not compiled)
             for lv in ("vm0", "vm1", "vm2"):
                 ob = o.get(lv)
                 ck.cov["evaluations"] += 1
